@@ -78,8 +78,8 @@ def check_converse(case):
 def components(tier, disabled):
     q = tier == "quick"
     return {
-        "sound": {"strategy": semantic_program(profile="modelled", disabled=disabled, focus=list(ATTR) + ["TypeEnum"]),
+        "sound": {"strategy": semantic_program(profile="modelled", disabled=disabled, max_stmts=(12 if q else 18), focus=list(ATTR) + ["TypeEnum"]),
                   "check": check_sound, "examples": 1600 if q else 80000, "sample": lambda c, i: RCFG(c).text},
-        "converse": {"strategy": semantic_program(profile="direct", disabled=disabled, focus=list(ATTR)),
+        "converse": {"strategy": semantic_program(profile="direct", disabled=disabled, max_stmts=(12 if q else 18), focus=list(ATTR)),
                      "check": check_converse, "examples": 1600 if q else 80000, "sample": lambda c, i: RCFG(c).text},
     }
